@@ -16,10 +16,12 @@ Companions == {<<0, -1, 1>>, <<2, -INF, 1>>, <<-2, -1, INF>>, <<1, -INF, INF>>, 
 \* vfree: the variables themselves are unbounded (the bound pairs then only apply to the linear rows and the non-linear
 \* constraints)
 Init == /\ \E v \in -VMax..VMax : \E lb \in Lows : \E ub \in Ups : \E c \in Companions : \E tol \in {0, 1, 2} : \E tf \in 0..5 :
-           \E vfree \in BOOLEAN :
+           \E vfree \in BOOLEAN : \E eps \in {-1, 0, 1} :
+             \* eps: the first variable is v + eps/65536 - values very close to, but not on, a bound (no snapping)
+             /\ (eps # 0 => c = <<0, -1, 1>> /\ tf \in {0, 1} /\ tol \in {0, 1})
              /\ lb <= ub
              /\ (vfree => tol = 1)
-             /\ sc = [v |-> <<v, c[1]>>, lb |-> <<lb, c[2]>>, ub |-> <<ub, c[3]>>, tol |-> tol, tf |-> tf, vfree |-> vfree]
+             /\ sc = [v |-> <<v, c[1]>>, lb |-> <<lb, c[2]>>, ub |-> <<ub, c[3]>>, tol |-> tol, tf |-> tf, vfree |-> vfree, eps |-> eps]
         /\ out = <<>> /\ phase = "init"
 Compute == /\ phase = "init" /\ phase' = "done" /\ UNCHANGED sc
            /\ out' = [i \in 1..2 |-> [lower |-> LowerDiff(sc.v[i], sc.lb[i]), upper |-> UpperDiff(sc.v[i], sc.ub[i]),
